@@ -183,7 +183,7 @@ def explore(ctx):
     total = dict(n=0, agree=0, dist={}, outcomes={}, nfind={}, findings=[], mism=[], mism_more=0, distinct=set(),
                  nontriv=set(), samples=[], sampled=set(), execs=0, selfov=0)
     skipped = set()
-    for dev, pc, labels, op, b1, b2 in cases:
+    for ci, (dev, pc, labels, op, b1, b2) in enumerate(cases):
         bench = benches[dev]
         W, AW = widths(dev)
         AM = 1 << AW
@@ -204,6 +204,8 @@ def explore(ctx):
             skipped.add(len(lines) + len(skipped))
             continue
         bench.set_labels(labels)
+        labels = tuple((k, v) for k, v in bench.parser.labels.items())     # the table in its real order (edited in place)
+        cases[ci] = (dev, pc, labels, op, b1, b2)
         re_ = bench.run(pc)
         lines.append(ac.dis_line(dev, pc, labels, *cells))
         reals.append(re_)
